@@ -8,6 +8,7 @@ import (
 	"os"
 	"path/filepath"
 	"regexp"
+	"sort"
 	"strings"
 
 	"github.com/mimecast/dtail/internal/clients/handlers"
@@ -28,6 +29,7 @@ func init() {
 	Drivers["C16"] = c16
 	Children["c16pure"] = c16PureChild
 	Children["c16handler"] = c16HandlerChild
+	Children["c16table"] = c16TableChild
 }
 
 type c16PureResult struct {
@@ -170,6 +172,132 @@ func c16HandlerChild(args []string) int {
 	return 0
 }
 
+// c16TableChild: vcheck child c16table <casefile> <color:0|1>
+// A mapreduce client handler receives aggregate messages over several report
+// intervals; after each interval the cumulative result table is printed the
+// way dmap prints it.
+func c16TableChild(args []string) int {
+	raw, err := os.ReadFile(args[0])
+	if err != nil {
+		return 2
+	}
+	var c c16TableCase
+	json.Unmarshal(raw, &c)
+	dt.Init(source.Client, "none", "stdout", "error", args[1] == "0")
+	q, err := mapr.NewQuery(c.Query)
+	if err != nil {
+		return 2
+	}
+	global := mapr.NewGlobalGroupSet()
+	hs := map[string]handlers.Handler{}
+	for _, iv := range c.Intervals {
+		for _, m := range iv {
+			srv := strings.SplitN(m, "|", 3)[1]
+			h := hs[srv]
+			if h == nil {
+				h = handlers.NewMaprHandler(srv, q, global)
+				hs[srv] = h
+			}
+			h.Write(append([]byte(m), 0xAC))
+		}
+		res, _, err := global.Result(q, c.RowsLimit)
+		if err != nil {
+			fmt.Println("ERROR", err)
+		}
+		fmt.Print(res)
+		fmt.Println("=====")
+	}
+	os.Stdout.Sync()
+	return 0
+}
+
+type c16TableCase struct {
+	Query     string     `json:"query"`
+	Intervals [][]string `json:"intervals"`
+	RowsLimit int        `json:"rows_limit"`
+}
+
+func c16Tables(r *vlib.Run) {
+	n := r.N(60, 1500)
+	rng := r.Rng("tables")
+	dir := r.Dir("c16tables")
+	cases := make([]c16TableCase, n)
+	for i := range cases {
+		c := c16TableCase{RowsLimit: -1} // all rows: which rows a limit keeps depends on map order
+		c.Query = []string{
+			"select host,count($line),last(msg) from STATS group by host",
+			"select count($line),last(msg),host from STATS group by host order by count($line)",
+			"select host,count($line),last(msg) from STATS group by host rorder by count($line)",
+		}[rng.Intn(3)]
+		nIv := 2 + rng.Intn(4)
+		hosts := 1 + rng.Intn(6)
+		for iv := 0; iv < nIv; iv++ {
+			var msgs []string
+			for h := 0; h < hosts; h++ {
+				if rng.Intn(4) == 0 {
+					continue
+				}
+				name := fmt.Sprintf("h%d", h)
+				if rng.Intn(3) == 0 {
+					name += strings.Repeat("x", rng.Intn(4)*iv) // group keys get longer over time
+				}
+				cnt := 1
+				for k := 0; k < iv*rng.Intn(4); k++ {
+					cnt *= 10 // counts grow by orders of magnitude: columns get wider
+				}
+				val := strings.Repeat("v", 1+rng.Intn(3)+iv*rng.Intn(6))
+				msgs = append(msgs, fmt.Sprintf("AGGREGATE|srv%d|%s∥%d∥count($line)≔%d∥last(msg)≔%s∥host≔%s∥", rng.Intn(3), name, cnt, cnt, val, name))
+			}
+			c.Intervals = append(c.Intervals, msgs)
+		}
+		cases[i] = c
+	}
+	vlib.Parallel(n, 12, func(i int) {
+		p := filepath.Join(dir, fmt.Sprintf("t%d.json", i))
+		b, _ := json.Marshal(cases[i])
+		os.WriteFile(p, b, 0644)
+		defer os.Remove(p)
+		run := func(color string) *vlib.Result {
+			return vlib.RunCmd(vlib.Cmd{Path: r.Bin("vcheck"), Args: []string{"child", "c16table", p, color}, Dir: dir})
+		}
+		col, plain := run("1"), run("0")
+		r.Eval(fmt.Sprintf("table|%x", hashStrings([]string{string(b)})))
+		r.Count("result_tables_rendered", len(cases[i].Intervals))
+		if col.TimedOut || plain.TimedOut {
+			r.Inconclusive("table-watchdog")
+			return
+		}
+		d := map[string]interface{}{"case": cases[i], "exit_coloured": col.Exit, "exit_plain": plain.Exit,
+			"stderr_coloured": vlib.Trunc(string(col.Stderr), 1200), "stderr_plain": vlib.Trunc(string(plain.Stderr), 1200)}
+		if col.Exit != 0 || plain.Exit != 0 {
+			r.Violation("table-render-crash", d)
+			return
+		}
+		// rows come in map order (ties too): compare per table the header
+		// lines exactly and the rows as a multiset
+		norm := func(s string) string {
+			var out []string
+			for _, blk := range strings.Split(s, "=====\n") {
+				ls := strings.Split(blk, "\n")
+				if len(ls) > 2 {
+					rows := append([]string(nil), ls[2:]...)
+					sort.Strings(rows)
+					ls = append(ls[:2:2], rows...)
+				}
+				out = append(out, strings.Join(ls, "\n"))
+			}
+			return strings.Join(out, "=====\n")
+		}
+		a, bb := norm(stripSGR(string(col.Stdout))), norm(string(plain.Stdout))
+		if a != bb {
+			fd := firstDiff([]byte(a), []byte(bb))
+			d["coloured_stripped_around"] = around([]byte(a), fd)
+			d["plain_around"] = around([]byte(bb), fd)
+			r.Violation("coloured-result-table-differs-from-plain", d)
+		}
+	})
+}
+
 func c16GenStream(rng *rand.Rand) []byte {
 	var b bytes.Buffer
 	n := 1 + rng.Intn(40)
@@ -262,6 +390,7 @@ func c16(r *vlib.Run) int {
 	r.Sample(map[string]interface{}{"message": "REMOTE|host1|100|42|file.log|ERROR text with spaces\r\n", "oracle": "strip(Colorfy(m)) == m"})
 
 	c16Handlers(r)
+	c16Tables(r)
 	c16E2E(r)
 	return nPure / 2
 }
